@@ -153,7 +153,7 @@ def dispatch (op : String) (args : List Sexp) : String :=
   | "lef.parse" => LefP.opLefParse args
   | "lef.wtokens" => LefP.opLefWTokens args
   | "lef.read" => "unsupported"
-  | "lef.wr" => "unsupported"
+  | "lef.wr" => LefP.opLefWr args
   | "lef.crash" => "unsupported"
   | "lef.big" => "unsupported"
   | "tproto.export" => TP.opTExport args
